@@ -6,6 +6,7 @@ import (
 	"fmt"
 	"math"
 	"math/big"
+	"strconv"
 	"strings"
 
 	"github.com/llir/llvm/asm"
@@ -199,6 +200,24 @@ func init() {
 		c2, err := constant.NewFloatFromString(typ, s)
 		if err != nil || c2.X.Cmp(c.X) != 0 {
 			return "FAIL reprint " + s
+		}
+		return "ok"
+	})
+	// flt.decround double <decimal text>: a decimal literal that is NOT exactly representable is read by LLVM as the nearest double (ties to even);
+	// independent route: strconv.ParseFloat (correctly rounded)
+	reg("flt.decround", func(a []string) string {
+		typ := floatKind(a[0])
+		c, err := constant.NewFloatFromString(typ, a[1])
+		if err != nil {
+			return "FAIL parse-error"
+		}
+		want, err := strconv.ParseFloat(a[1], 64)
+		if err != nil {
+			return "FAIL bad-literal"
+		}
+		got, acc := c.X.Float64()
+		if c.NaN || acc != big.Exact || math.Float64bits(got) != math.Float64bits(want) {
+			return fmt.Sprintf("FAIL value %s (%016X), correctly rounded %016X", c.Ident(), math.Float64bits(got), math.Float64bits(want))
 		}
 		return "ok"
 	})
